@@ -62,6 +62,23 @@ def tlsPolicy (o : SslOpt) (env : TlsEnv) (urlHost : Str) : Option Policy :=
       else some (.fresh .none false .unset (peerName o urlHost))
     | v => some (.fresh v (o.checkHostname.getD true) (caSource o env) (peerName o urlHost))
 
+/-! components of a policy (for "each option affects only its own check") -/
+def Policy.verify : Policy → Option CertReqs
+  | .fresh v _ _ _ => some v
+  | .user _ _ => none
+def Policy.check : Policy → Option Bool
+  | .fresh _ c _ _ => some c
+  | .user _ _ => none
+def Policy.ca : Policy → Option CaSource
+  | .fresh _ _ ca _ => some ca
+  | .user _ _ => none
+def Policy.sni : Policy → Str
+  | .fresh _ _ _ s => s
+  | .user _ s => s
+def Policy.userCtx : Policy → Option Nat
+  | .fresh _ _ _ _ => none
+  | .user c _ => some c
+
 /-- wrap exactly the secure scheme. -/
 def wraps (secure : Bool) : Bool := secure
 
